@@ -117,6 +117,8 @@ func famOverlap(t *testing.T) {
 				return
 			}
 			switch kind {
+			case "list", "rewrite":
+				// (not issued in the rewrite-free configuration)
 			case "exists":
 				emit(map[string]any{"ev": "direct", "res": res.(bool)})
 			case "expand":
